@@ -64,7 +64,7 @@ PROTO_PAYLOADS = {0: "rule-based protocluster", 1: "sideloaded protocluster with
 SUB_PAYLOADS = {0: "subregion with label", 1: "sideloaded subregion with extra qualifiers"}
 CORE_TEXT = "PKS_KS"
 FREE_KEYS = ["db_xref", "EC_number", "inference", "function", "old_locus_tag", "organism", "mol_type", "strain",
-             "gene_synonym", "pseudo", "regulatory_class"]
+             "gene_synonym", "pseudo", "regulatory_class", "bound_moiety"]
 
 
 # ---- coordinates ----------------------------------------------------------------------------------------------
@@ -126,6 +126,13 @@ def skeleton_text(length: int, circ: bool, seed: int) -> str:
     regulatory.qualifiers["regulatory_class"] = ["ribosome_binding_site"]
     regulatory.qualifiers["note"] = ["RBS of the first gene"]
     bio.features.append(regulatory)
+    # a feature whose parts are listed with order(...) instead of join(...), as annotated inputs sometimes have them
+    from Bio.SeqFeature import CompoundLocation as BioCompound, FeatureLocation as BioLocation
+    ordered = SeqFeature(BioCompound([BioLocation(2 * SCALE + 4, 2 * SCALE + 10, 1), BioLocation(2 * SCALE + 20, 2 * SCALE + 27, 1)],
+                                     operator="order"), type="misc_binding")
+    ordered.qualifiers["note"] = ["two binding sites of one factor"]
+    ordered.qualifiers["bound_moiety"] = ["some factor"]
+    bio.features.append(ordered)
     handle = io.StringIO()
     SeqIO.write([bio], handle, "genbank")
     return handle.getvalue()
@@ -420,11 +427,26 @@ def _t2pks(qual):
             "weights": dict(qual.molecular_weights)}
 
 
+def _operator(location, length: int) -> str:
+    """ the operator of a location that really is in several pieces (abutting parts are one piece, as in the comparison
+        of locations: the reader may cut a part into abutting pieces, and the two parts of a span over the origin abut on
+        the ring and become one part in a region extract) """
+    parts = list(location.parts)
+    pieces = 1
+    for prev, part in zip(parts, parts[1:]):
+        ends = {(int(prev.end), int(part.start)), (int(part.end), int(prev.start))}
+        if not any(a == b or (a == length and b == 0) for a, b in ends):
+            pieces += 1
+    return str(getattr(location, "operator", "") or "") if pieces > 1 else ""
+
+
 def content_of(feature, record) -> tuple:
     """ -> (content carried across both kinds of round trip, additional content that depends on the feature's place in
             the record and is therefore not expected in a region extract) """
     base = {"cls": type(feature).__name__, "type": feature.type, "notes": _notes(feature),
-            "antismash": bool(feature.created_by_antismash)}
+            "antismash": bool(feature.created_by_antismash),
+            # join(...) / order(...): how the parts of a location in several parts are meant
+            "operator": _operator(feature.location, len(record.seq))}
     placed = {}
     if isinstance(feature, CDSFeature):
         base.update({"locus_tag": feature.locus_tag, "protein_id": feature.protein_id, "gene": feature.gene, "product": feature.product,
